@@ -307,7 +307,7 @@ def run_one(drv, rng, V, stats, scenario, n_resets, wseed):
 def main(tier):
     T = Timer()
     V = Verdict("C13")
-    mods = ["NSG.Properties.C13"]
+    mods = ["NSG.Properties.C13", "NSG.Properties.C13Goal"]
     ok, info = lean_gate(mods)
     if not ok:
         for f in info["failures"]:
@@ -324,7 +324,7 @@ def main(tier):
             drv.close()
     code, nviol = V.finish()
     cov = {"obligations": info.get("obligations", 0), "discharged": info.get("discharged", 0),
-           "checker_cmd": "lake build NSG.Properties.C13 && lake env lean <#print axioms of every theorem>",
+           "checker_cmd": "lake build NSG.Properties.C13 NSG.Properties.C13Goal && lake env lean <#print axioms of every theorem>",
            "trusted_base": TRUSTED_BASE + ["Faker / random as seeded oracles whose outputs (the published maps) are validated on every reset rather than modelled"],
            "theorems": info.get("theorems", []), "axioms_seen": info.get("axioms_seen", []),
            "evaluations": stats["resets"], "distinct_nontrivial": len(stats["nontrivial"]),
